@@ -78,6 +78,7 @@ def src(node):
         return "<?>"
 
 
+DECORATOR_WHITELIST = {"staticmethod", "classmethod", "property", "wraps", "abstractmethod"}
 COMPLETION_ORDER_CALLS = {"as_completed", "gather", "imap_unordered", "wait"}
 
 
@@ -1247,6 +1248,20 @@ class Translator:
                             if isinstance(v, (ast.Set, ast.SetComp)) or (
                                     isinstance(v, ast.Call) and isinstance(v.func, ast.Name) and v.func.id in ("set", "frozenset")):
                                 c.self_sets.add(n.targets[0].attr)
+        # decorators of seeded functions: a memoising / wrapping decorator can make the result depend on earlier calls
+        # (a cached return value is shared with, and can be edited by, every caller) -- fail closed on anything that is
+        # not on the whitelist
+        for fn in list(self.fns.values()):
+            if not fn.seed_param:
+                continue
+            for d in fn.node.decorator_list:
+                text = src(d)
+                base = text.split("(")[0].split(".")[-1]
+                if base not in DECORATOR_WHITELIST:
+                    self.bad("%s:%d" % (fn.qual, fn.node.lineno),
+                             "decorator @%s on a function with a %s parameter (memoising / wrapping decorators can return an "
+                             "object shared with earlier callers: the result is then not a function of arguments and seed)"
+                             % (text[:60], fn.seed_param))
         # kw-seeded wrappers: forward their own **kwargs to a seed-accepting callee (fixpoint)
         changed = True
         while changed:
